@@ -67,6 +67,9 @@ pub enum Shape {
 pub enum Act {
     Provide { user: String, shape: Shape, receiver: Option<String> },
     Withdraw { user: String, part: String },
+    /// withdrawal attempts that do not go through the LP token's Send hook: the direct
+    /// WithdrawLiquidity{} message with an unrelated coin attached, or a forged Receive
+    BadWithdraw { user: String, kind: String },
     Swap { user: String, dir: u8, amount: u128, loose: bool },
     Collect { user: String },
     /// through fee_collector::CollectFees{Contracts}
@@ -302,6 +305,11 @@ impl Scenario for PairScn {
                 }
             }
         }
+        if supply > 0 {
+            for kind in ["direct_coin", "forged_receive"] {
+                v.push(Act::BadWithdraw { user: MALLORY.to_string(), kind: kind.to_string() });
+            }
+        }
         v.push(Act::Collect { user: MALLORY.to_string() });
         for i in 0..self.fee_alphabet.len() {
             v.push(Act::SetFees { idx: i });
@@ -394,6 +402,40 @@ impl Scenario for PairScn {
                         cx.count("withdraw:rejected");
                         cx.note(|| format!("rejected: {}", e.msg()));
                     }
+                }
+            }
+            Act::BadWithdraw { user, kind } => {
+                let (_, supply) = pre.unwrap();
+                let ub = [info_balance(w, &p.assets[0], user), info_balance(w, &p.assets[1], user)];
+                let native = p.assets.iter().find_map(|a| match a {
+                    AssetInfo::NativeToken { denom } => Some(denom.clone()),
+                    _ => None,
+                });
+                let amt = 1000u128.min(supply);
+                let r = match (kind.as_str(), native) {
+                    ("direct_coin", Some(d)) => w.exec(user, &p.addr, &white_whale_std::pool_network::pair::ExecuteMsg::WithdrawLiquidity {}, &[cosmwasm_std::coin(amt, d)]),
+                    ("direct_coin", None) => w.exec(user, &p.addr, &white_whale_std::pool_network::pair::ExecuteMsg::WithdrawLiquidity {}, &[]),
+                    _ => w.exec(
+                        user,
+                        &p.addr,
+                        &white_whale_std::pool_network::pair::ExecuteMsg::Receive(cw20::Cw20ReceiveMsg {
+                            sender: user.clone(),
+                            amount: cosmwasm_std::Uint128::new(amt),
+                            msg: cosmwasm_std::to_json_binary(&white_whale_std::pool_network::pair::Cw20HookMsg::WithdrawLiquidity {}).unwrap(),
+                        }),
+                        &[],
+                    ),
+                };
+                match r {
+                    Ok(_) => {
+                        cx.count("bad_withdraw:accepted");
+                        let ua = [info_balance(w, &p.assets[0], user), info_balance(w, &p.assets[1], user)];
+                        let lp_after = w.cw20_supply(&p.lp);
+                        cx.check("withdraw.needs_lp_shares", ua[0] <= ub[0] && ua[1] <= ub[1] && lp_after == supply, || {
+                            format!("{} by {} (holding no LP shares) succeeded: balances {:?}->{:?}, LP supply {}->{}", kind, user, ub, ua, supply, lp_after)
+                        });
+                    }
+                    Err(_) => cx.count("bad_withdraw:rejected"),
                 }
             }
             Act::Swap { user, dir, amount, loose } => {
